@@ -97,6 +97,7 @@ type Run struct {
 	knownHits    map[string]int
 	known        []*Known
 	inconclusive map[string]int
+	guardSkips   []string
 
 	abortCh   chan struct{}
 	abortOnce sync.Once
@@ -342,6 +343,18 @@ func (r *Run) Sample(v any) {
 func (r *Run) Inconclusive(reason string) {
 	r.mu.Lock()
 	r.inconclusive[reason]++
+	r.mu.Unlock()
+}
+
+// GuardSkip: one case was stopped by a resource guard of the worker (memory, CPU) in a check where that decides
+// nothing about the property: the machine could not finish the case. It is counted and named in the evidence; the
+// run becomes inconclusive only when such cases are more than a hundredth of what was evaluated (and more than ten).
+func (r *Run) GuardSkip(what string) {
+	r.mu.Lock()
+	r.counters["cases_stopped_by_a_resource_guard"]++
+	if len(r.guardSkips) < 5 {
+		r.guardSkips = append(r.guardSkips, what)
+	}
 	r.mu.Unlock()
 }
 
@@ -742,6 +755,12 @@ func (r *Run) Finish() {
 	}
 	if len(r.knownHits) > 0 {
 		cov["known_findings_reobserved"] = r.knownHits
+	}
+	if n := r.counters["cases_stopped_by_a_resource_guard"]; n > 0 {
+		cov["cases_stopped_by_a_resource_guard"] = r.guardSkips
+		if n > 10 && n*100 > r.evaluations {
+			r.inconclusive[fmt.Sprintf("%d cases were stopped by a resource guard of the worker (more than a hundredth of the cases evaluated)", n)]++
+		}
 	}
 	if len(r.inconclusive) > 0 {
 		cov["inconclusive"] = r.inconclusive
